@@ -6,18 +6,24 @@
 from __future__ import annotations
 
 import importlib.metadata
+from collections.abc import Sequence
 from contextvars import ContextVar
 from http import HTTPStatus
 from io import BytesIO, IOBase
+from typing import TYPE_CHECKING
 
 import falcon
 import pyarrow as pa
 
-from vgi_rpc.rpc import _EMPTY_SCHEMA, RpcError, VersionError, _write_error_batch
+from vgi_rpc.rpc import _EMPTY_SCHEMA, RpcError, VersionError, _write_error_batch, _write_message_batch
 from vgi_rpc.rpc._common import _current_request_batch
 from vgi_rpc.utils import IPCError, new_ipc_stream
 
 from .._common import _ARROW_CONTENT_TYPE, RPC_ERROR_HEADER, _RpcHttpError
+
+if TYPE_CHECKING:
+    from vgi_rpc.log import Message
+    from vgi_rpc.rpc import AnnotatedBatch
 
 # Set by stream-dispatch paths that emit an in-band EXCEPTION batch instead
 # of raising ``_RpcHttpError`` (cap-overshoot for stream-exchange and the
@@ -119,7 +125,12 @@ def _check_content_type(req: falcon.Request) -> None:
 
 
 def _error_response_stream(
-    exc: BaseException, schema: pa.Schema = _EMPTY_SCHEMA, server_id: str | None = None
+    exc: BaseException,
+    schema: pa.Schema = _EMPTY_SCHEMA,
+    server_id: str | None = None,
+    *,
+    logs: Sequence[Message] = (),
+    log_batches: Sequence[AnnotatedBatch] = (),
 ) -> BytesIO:
     """Serialize an exception as a complete Arrow IPC error stream.
 
@@ -127,6 +138,10 @@ def _error_response_stream(
         exc: The exception to serialize.
         schema: Arrow schema for the error stream (default empty).
         server_id: Optional server identifier injected into error metadata.
+        logs: Client-directed log messages emitted before the failure,
+            written ahead of the error batch.
+        log_batches: Already-built client-log batches (from an
+            ``OutputCollector``) emitted before the failure.
 
     Returns:
         A ``BytesIO`` positioned at the start, containing the IPC stream.
@@ -134,6 +149,11 @@ def _error_response_stream(
     """
     buf = BytesIO()
     with new_ipc_stream(buf, schema) as writer:
+        for msg in logs:
+            _write_message_batch(writer, schema, msg, server_id=server_id)
+        for ab in log_batches:
+            if ab.batch.schema == schema:
+                writer.write_batch(ab.batch, custom_metadata=ab.custom_metadata)
         _write_error_batch(writer, schema, exc, server_id=server_id)
     buf.seek(0)
     return buf
@@ -194,8 +214,10 @@ def _set_error_response(
     status_code: HTTPStatus = HTTPStatus.BAD_REQUEST,
     schema: pa.Schema = _EMPTY_SCHEMA,
     server_id: str | None = None,
+    logs: Sequence[Message] = (),
+    log_batches: Sequence[AnnotatedBatch] = (),
 ) -> None:
     """Set a Falcon response to an Arrow IPC error stream."""
     resp.content_type = _ARROW_CONTENT_TYPE
-    resp.stream = _error_response_stream(exc, schema, server_id=server_id)
+    resp.stream = _error_response_stream(exc, schema, server_id=server_id, logs=logs, log_batches=log_batches)
     _set_http_status(resp, status_code)
